@@ -14,6 +14,7 @@ Definition bare_single (q : oquirks) (o : op) : bool :=
   | _ => false
   end.
 Definition is_new_linter (o : op) : bool := match o with NewLinter => true | _ => false end.
+Definition is_reload (o : op) : bool := match o with ReloadConfig => true | _ => false end.
 (* lint calls proper / everything that is not a change of the file system *)
 Definition lint_call (o : op) : bool :=
   match o with LintFile _ | LintFiles _ | LintDir _ _ | ApiLint _ => true | _ => false end.
@@ -22,16 +23,18 @@ Definition lint_op (o : op) : bool :=
 Definition touches (ip : path) (o : op) : bool :=
   match o with Edit p _ | Delete p | Add p _ => p =? ip | _ => false end.
 
-(* Configuration is read when an object is built: a history is admissible when no lint call is made between a change
-   of the ignore file and the construction of the next Linter (d: the ignore file changed since the object was built) *)
-Fixpoint hist_synced (ip : path) (d : bool) (h : list op) : bool :=
+(* Configuration is read when an object is built or told to reload: a history is admissible when no lint call is made
+   between a change of the ignore file and the construction of the next Linter (d), nor between a change of the configuration
+   file and the next construction / reload (dc) *)
+Fixpoint hist_synced (ip cp : path) (d dc : bool) (h : list op) : bool :=
   match h with
   | [] => true
   | o :: r =>
       match o with
-      | NewLinter => hist_synced ip false r
-      | Edit _ _ | Delete _ | Add _ _ => hist_synced ip (d || touches ip o) r
-      | _ => negb d && hist_synced ip d r
+      | NewLinter => hist_synced ip cp false false r
+      | ReloadConfig => hist_synced ip cp d false r
+      | Edit _ _ | Delete _ | Add _ _ => hist_synced ip cp (d || touches ip o) (dc || touches cp o) r
+      | _ => negb d && negb dc && hist_synced ip cp d dc r
       end
   end.
 
@@ -54,7 +57,7 @@ Proof.
     destruct (p =? p') eqn:E; cbn [negb].
     - apply Nat.eqb_eq in E. subst p'. cbn [fs_get]. rewrite Nat.eqb_sym, Hp. exact IH.
     - cbn [fs_get]. destruct (ip =? p'); [reflexivity|exact IH]. }
-  destruct o as [p|ps|d l|t|p c|p|p c|]; cbn [touches fs_step]; intros T; try reflexivity.
+  destruct o as [p|ps|d l|t|p c|p|p c| |]; cbn [touches fs_step]; intros T; try reflexivity.
   - destruct (fs_get fs p); [|reflexivity]. unfold fs_set. cbn [fs_get]. rewrite Nat.eqb_sym, T. now apply REM.
   - now apply REM.
   - unfold fs_set. cbn [fs_get]. rewrite Nat.eqb_sym, T. now apply REM.
@@ -62,42 +65,56 @@ Qed.
 
 Section Main.
   Variable V : Type.
-  Variable perfile : path -> option content -> list V.
-  Variable rep_blocks : list fv -> list fv -> list V.
-  Variable rep_consts rep_st : list fv -> list V.
+  Variable perfile perfile_fp : path -> option content -> list V.
+  Variable rep_blocks : option content -> list fv -> list fv -> list V.
+  Variable rep_consts : option content -> list fv -> list V.
+  Variable rep_st : list fv -> list V.
   Variable hard_excl : path -> bool.
   Variable ignored : option content -> path -> bool.
-  Variable ign_path : path.
+  Variable ign_path cfg_path : path.
   Variable in_dir : nat -> path -> bool.
 
-  Notation run_entry := (run_entry V perfile rep_blocks rep_consts rep_st hard_excl ignored).
-  Notation run_single := (run_single V perfile rep_blocks rep_consts rep_st hard_excl ignored).
-  Notation step := (step V perfile rep_blocks rep_consts rep_st hard_excl ignored ign_path in_dir).
-  Notation run := (run V perfile rep_blocks rep_consts rep_st hard_excl ignored ign_path in_dir).
-  Notation freshN := (fresh V perfile rep_blocks rep_consts rep_st hard_excl ignored ign_path in_dir).
-  Notation mk_init := (mk_init ign_path).
+  Notation run_entry := (run_entry V perfile perfile_fp rep_blocks rep_consts rep_st hard_excl ignored).
+  Notation run_single := (run_single V perfile perfile_fp rep_blocks rep_consts rep_st hard_excl ignored).
+  Notation step := (step V perfile perfile_fp rep_blocks rep_consts rep_st hard_excl ignored ign_path cfg_path in_dir).
+  Notation run := (run V perfile perfile_fp rep_blocks rep_consts rep_st hard_excl ignored ign_path cfg_path in_dir).
+  Notation freshN := (fresh V perfile perfile_fp rep_blocks rep_consts rep_st hard_excl ignored ign_path cfg_path in_dir).
+  Notation mk_init := (mk_init ign_path cfg_path).
   Notation coherent := (coherent ignored).
   Notation evid := (evid hard_excl ignored).
-  Notation pfout := (pfout V perfile hard_excl ignored).
-  Notation REF := (run_entry_finalizing V perfile rep_blocks rep_consts rep_st hard_excl ignored).
-  Notation REP := (run_entry_plain V perfile rep_blocks rep_consts rep_st hard_excl ignored).
+  Notation pfout := (pfout V perfile perfile_fp hard_excl ignored).
+  Notation REF := (run_entry_finalizing V perfile perfile_fp rep_blocks rep_consts rep_st hard_excl ignored).
+  Notation REP := (run_entry_plain V perfile perfile_fp rep_blocks rep_consts rep_st hard_excl ignored).
+  Notation RCF := (run_entry_cfg0 V perfile perfile_fp rep_blocks rep_consts rep_st hard_excl ignored).
+
+  (* both rules that remember a configuration use the one the object holds *)
+  Definition views_ok (q : oquirks) (st : ostate) : Prop := fp_view q st = ocfg st /\ dry_view q st = ocfg st.
+  Lemma views_ok_fresh q pp oc : views_ok q (init_st pp oc).
+  Proof. unfold views_ok, fp_view, dry_view, view. cbn [init_st fp_cfg0 dry_cfg0 ocfg]. destruct (q_fp_config_sticky q), (q_dry_config_sticky q); split; reflexivity. Qed.
+  Lemma views_ok_frame q a b : same_frame q a b -> views_ok q a -> views_ok q b.
+  Proof. intros (_ & F2 & F3 & F4) (A1 & A2). unfold views_ok. rewrite F2, F3, F4. split; assumption. Qed.
+  Lemma views_ok_off q st : q_fp_config_sticky q = false -> q_dry_config_sticky q = false -> views_ok q st.
+  Proof. intros A B. unfold views_ok, fp_view, dry_view, view. rewrite A, B. split; reflexivity. Qed.
 
   (* what a fresh object returns after each prefix of a history *)
   Fixpoint fresh_run (q : oquirks) (fs : fsys) (h : list op) : list (out V) :=
     match h with [] => [] | o :: r => freshN q fs o :: fresh_run q (fs_step fs o) r end.
 
-  Lemma clean_init pp : clean (init_st pp). Proof. repeat split. Qed.
+  Lemma clean_init pp oc : clean (init_st pp oc). Proof. repeat split. Qed.
 
   (* ---------- one entry-point call from an arbitrary state ---------- *)
+  Lemma keep_evidence_frame q old new : same_frame q new (keep_evidence old new).
+  Proof. unfold same_frame, fp_view, dry_view, keep_evidence. cbn [ppats ocfg fp_cfg0 dry_cfg0]. repeat split. Qed.
+
   Lemma run_single_char q entry fs st p : coherent st ->
-    let r := run_single q entry fs st p in let pp := ppats st in
-    coherent (fst r) /\ ppats (fst r) = pp /\
+    let r := run_single q entry fs st p in let pp := ppats st in let k := ocfg st in
+    coherent (fst r) /\ same_frame q st (fst r) /\
     (finalizes entry = true -> r = run_entry q entry fs st [p]) /\
     (finalizes entry = false ->
-       snd r = Build_out (pfout pp fs [p]) [] [] [] /\
-       dry_rows (fst r) = (if q_lintfile_leaves_evidence q then dry_rows st ++ evid pp fs [p] else dry_rows st) /\
-       dry_aux (fst r) = (if q_lintfile_leaves_evidence q then dry_aux st ++ evid pp fs [p] else dry_aux st) /\
-       st_ev (fst r) = (if q_lintfile_leaves_evidence q then st_ev st ++ evid pp fs [p] else st_ev st)).
+       snd r = Build_out (pfout pp k (fp_view q st) fs [p]) [] [] [] /\
+       dry_rows (fst r) = (if q_lintfile_leaves_evidence q then dry_rows st ++ evid pp k fs [p] else dry_rows st) /\
+       dry_aux (fst r) = (if q_lintfile_leaves_evidence q then dry_aux st ++ evid pp k fs [p] else dry_aux st) /\
+       st_ev (fst r) = (if q_lintfile_leaves_evidence q then st_ev st ++ evid pp k fs [p] else st_ev st)).
   Proof.
     intros C. unfold OrchHist.run_single. cbn zeta. destruct (finalizes entry) eqn:F.
     - pose proof (REF q entry fs st [p] F C) as (_ & _ & _ & _ & H5 & H6).
@@ -105,35 +122,40 @@ Section Main.
       split; [exact H5|]. split; [exact H6|]. split; [reflexivity|discriminate].
     - pose proof (REP q entry fs st [p] F C) as (H1 & H2 & H3 & H4 & H5 & H6).
       destruct (run_entry q entry fs st [p]) as [s1 o]. cbn [fst snd] in *.
-      destruct (q_lintfile_leaves_evidence q); cbn [fst snd keep_evidence dry_rows dry_aux st_ev icache ppats].
+      destruct (q_lintfile_leaves_evidence q); cbn [fst snd].
       + split; [exact H5|]. split; [exact H6|]. split; [discriminate|]. intros _. repeat split; assumption.
-      + split; [intros x b Hx; cbn [icache ppats] in *; apply (H5 x b Hx)|]. split; [exact H6|]. split; [discriminate|].
-        intros _. repeat split; assumption.
+      + split; [intros x b Hx; unfold keep_evidence in *; cbn [icache ppats] in *; apply (H5 x b Hx)|].
+        split; [apply (same_frame_trans q st s1 _ H6), keep_evidence_frame|]. split; [discriminate|].
+        intros _. unfold keep_evidence. cbn [dry_rows dry_aux st_ev]. repeat split; assumption.
   Qed.
 
   (* ---------- Theorem A: history independence ---------- *)
   Lemma step_lint_clean q st fs o :
     lint_call o = true ->
     (q_lintfile_leaves_evidence q = false \/ bare_single q o = false) ->
-    clean st -> coherent st -> ppats st = fs_get fs ign_path ->
+    clean st -> coherent st -> views_ok q st ->
+    ppats st = fs_get fs ign_path -> ocfg st = fs_get fs cfg_path ->
     let r := step q (st, fs) o in
-    clean (fst (fst r)) /\ coherent (fst (fst r)) /\ ppats (fst (fst r)) = ppats st /\ snd r = freshN q fs o.
+    clean (fst (fst r)) /\ coherent (fst (fst r)) /\ same_frame q st (fst (fst r)) /\ snd r = freshN q fs o.
   Proof.
-    intros LC L (R1 & R2 & R3) C S. unfold OrchHist.fresh.
+    intros LC L (R1 & R2 & R3) C (W1 & W2) S SC. unfold OrchHist.fresh.
     assert (Ci : coherent (mk_init fs)) by apply coherent_init.
+    destruct (views_ok_fresh q (fs_get fs ign_path) (fs_get fs cfg_path)) as (I1 & I2).
+    change (init_st (fs_get fs ign_path) (fs_get fs cfg_path)) with (mk_init fs) in I1, I2.
     assert (Si : ppats (mk_init fs) = ppats st) by (symmetry; exact S).
+    assert (Sk : ocfg (mk_init fs) = ocfg st) by (symmetry; exact SC).
     assert (FIN : forall entry ps, finalizes entry = true ->
                let r := run_entry q entry fs st ps in
-               clean (fst r) /\ coherent (fst r) /\ ppats (fst r) = ppats st /\ snd r = snd (run_entry q entry fs (mk_init fs) ps)).
+               clean (fst r) /\ coherent (fst r) /\ same_frame q st (fst r) /\ snd r = snd (run_entry q entry fs (mk_init fs) ps)).
     { intros entry ps F.
       pose proof (REF q entry fs st ps F C) as (H1 & H2 & H3 & H4 & H5 & H6).
       pose proof (REF q entry fs (mk_init fs) ps F Ci) as (K1 & _).
-      cbn zeta in *. rewrite H1, K1, Si, R1, R2, R3. cbn [OrchHist.mk_init init_st dry_rows dry_aux st_ev app].
+      cbn zeta in *. rewrite H1, K1, I1, I2, Si, Sk, W1, W2, R1, R2, R3. cbn [OrchHist.mk_init init_st dry_rows dry_aux st_ev app].
       split; [|split; [exact H5|split; [exact H6|reflexivity]]]. unfold clean. rewrite H2, H3, H4, (gen_rows_reset q). repeat split. }
     assert (SGL : forall entry p,
                (q_lintfile_leaves_evidence q = false \/ finalizes entry = true) ->
                let r := run_single q entry fs st p in
-               clean (fst r) /\ coherent (fst r) /\ ppats (fst r) = ppats st /\ snd r = snd (run_single q entry fs (mk_init fs) p)).
+               clean (fst r) /\ coherent (fst r) /\ same_frame q st (fst r) /\ snd r = snd (run_single q entry fs (mk_init fs) p)).
     { intros entry p Hl.
       pose proof (run_single_char q entry fs st p C) as (H0 & H6 & Hf & Hp).
       pose proof (run_single_char q entry fs (mk_init fs) p Ci) as (_ & _ & Kf & Kp).
@@ -141,9 +163,9 @@ Section Main.
       - rewrite (Hf eq_refl), (Kf eq_refl). apply FIN. exact F.
       - destruct Hl as [Hl|Hl]; [|discriminate].
         destruct (Hp eq_refl) as (H1 & H2 & H3 & H4). destruct (Kp eq_refl) as (K1 & _).
-        rewrite H1, K1, Si. split; [|split; [exact H0|split; [exact H6|reflexivity]]].
+        rewrite H1, K1, I1, Si, Sk, W1. split; [|split; [exact H0|split; [exact H6|reflexivity]]].
         unfold clean. rewrite H2, H3, H4, Hl. repeat split; assumption. }
-    destruct o as [p|ps|d l|[p|d l]|p c|p|p c|]; cbn [OrchHist.step bare_single lint_call] in *; try discriminate.
+    destruct o as [p|ps|d l|[p|d l]|p c|p|p c| |]; cbn [OrchHist.step bare_single lint_call] in *; try discriminate.
     - specialize (SGL "lint_file" p). destruct (run_single q "lint_file" fs st p) as [s r].
       destruct (run_single q "lint_file" fs (mk_init fs) p) as [s' r']. cbn [fst snd] in *. apply SGL.
       destruct L as [L|L]; [now left|discriminate].
@@ -155,87 +177,107 @@ Section Main.
       + specialize (SGL (api_file_entry q) p). destruct (run_single q (api_file_entry q) fs st p) as [s r].
         destruct (run_single q (api_file_entry q) fs (mk_init fs) p) as [s' r']. cbn [fst snd] in *. apply SGL.
         destruct L as [L|L]; [now left|]. right. now apply negb_false_iff in L.
-      + cbn [fst snd]. repeat split; assumption.
+      + cbn [fst snd]. repeat split; try assumption.
     - specialize (FIN api_dir_entry (walk in_dir fs d l)). rewrite gen_api_dir_entry in *. specialize (FIN gen_lint_directory_finalizes).
       destruct (run_entry q "lint_directory" fs st _) as [s r]. destruct (run_entry q "lint_directory" fs (mk_init fs) _) as [s' r']. exact FIN.
   Qed.
 
-  Lemma run_clean q h : forall d st fs,
+  Lemma run_clean q h : forall d dc st fs,
     (q_ignore_parser_reused q = false \/ forallb (fun o => negb (is_new_linter o)) h = true) ->
     (q_lintfile_leaves_evidence q = false \/ forallb (fun o => negb (bare_single q o)) h = true) ->
-    hist_synced ign_path d h = true ->
-    clean st -> coherent st -> (d = false -> ppats st = fs_get fs ign_path) ->
+    ((q_fp_config_sticky q = false /\ q_dry_config_sticky q = false) \/ forallb (fun o => negb (is_reload o)) h = true) ->
+    hist_synced ign_path cfg_path d dc h = true ->
+    clean st -> coherent st -> views_ok q st ->
+    (d = false -> ppats st = fs_get fs ign_path) -> (dc = false -> ocfg st = fs_get fs cfg_path) ->
     snd (run q (st, fs) h) = fresh_run q fs h.
   Proof.
-    induction h as [|o r IH]; intros d st fs R L HS K C S; cbn [OrchHist.run fresh_run]; [reflexivity|].
+    induction h as [|o r IH]; intros d dc st fs R L SK HS K C W S SC; cbn [OrchHist.run fresh_run]; [reflexivity|].
     assert (Rr : q_ignore_parser_reused q = false \/ forallb (fun o => negb (is_new_linter o)) r = true).
     { destruct R as [R|R]; [now left|]. right. cbn [forallb] in R. apply andb_true_iff in R. apply R. }
+    assert (SKr : (q_fp_config_sticky q = false /\ q_dry_config_sticky q = false) \/ forallb (fun o => negb (is_reload o)) r = true).
+    { destruct SK as [SK|SK]; [now left|]. right. cbn [forallb] in SK. apply andb_true_iff in SK. apply SK. }
     assert (Lo : q_lintfile_leaves_evidence q = false \/ bare_single q o = false).
     { destruct L as [L|L]; [now left|]. right. cbn [forallb] in L. apply andb_true_iff in L. destruct L as [L _].
       now apply negb_true_iff in L. }
     assert (Lr : q_lintfile_leaves_evidence q = false \/ forallb (fun o => negb (bare_single q o)) r = true).
     { destruct L as [L|L]; [now left|]. right. cbn [forallb] in L. apply andb_true_iff in L. apply L. }
     destruct (lint_call o) eqn:LC.
-    - assert (Hd : d = false /\ hist_synced ign_path d r = true).
+    - assert (Hd : d = false /\ dc = false /\ hist_synced ign_path cfg_path d dc r = true).
       { destruct o; cbn [lint_call] in LC; try discriminate; cbn [hist_synced] in HS; apply andb_true_iff in HS;
-          destruct HS as [H1 H2]; apply negb_true_iff in H1; split; assumption. }
-      destruct Hd as [Hd HSr]. specialize (S Hd).
-      pose proof (step_lint_clean q st fs o LC Lo K C S) as (K1 & C1 & P1 & E1).
-      pose proof (step_fs V perfile rep_blocks rep_consts rep_st hard_excl ignored ign_path in_dir q st fs o) as Hfs.
+          destruct HS as [H1 H2]; apply andb_true_iff in H1; destruct H1 as [H1 H3]; apply negb_true_iff in H1; apply negb_true_iff in H3;
+          repeat split; assumption. }
+      destruct Hd as (Hd & Hdc & HSr). specialize (S Hd). specialize (SC Hdc).
+      pose proof (step_lint_clean q st fs o LC Lo K C W S SC) as (K1 & C1 & P1 & E1).
+      pose proof (step_fs V perfile perfile_fp rep_blocks rep_consts rep_st hard_excl ignored ign_path cfg_path in_dir q st fs o) as Hfs.
       destruct (step q (st, fs) o) as [[s1 f1] x]. cbn [fst snd] in K1, C1, P1, E1, Hfs. subst f1 x.
       assert (Ef : fs_step fs o = fs) by (destruct o; cbn [lint_call] in LC; try discriminate; reflexivity).
-      rewrite Ef in *. specialize (IH d s1 fs Rr Lr HSr K1 C1). destruct (run q (s1, fs) r) as [w2 xs]. cbn [fst snd] in *.
-      f_equal. apply IH. intros _. now rewrite P1.
-    - destruct o as [p|ps|dd l|t|p c|p|p c|]; cbn [lint_call] in LC; try discriminate.
+      rewrite Ef in *. specialize (IH d dc s1 fs Rr Lr SKr HSr K1 C1 (views_ok_frame q st s1 P1 W)).
+      destruct (run q (s1, fs) r) as [w2 xs]. cbn [fst snd] in *.
+      destruct P1 as (P1 & P2 & _). f_equal. apply IH; intros _; congruence.
+    - destruct o as [p|ps|dd l|t|p c|p|p c| |]; cbn [lint_call] in LC; try discriminate.
       + cbn [OrchHist.step fs_step hist_synced] in *. unfold OrchHist.fresh at 1. cbn [OrchHist.step snd].
-        match goal with |- context [run q (st, ?f) r] => specialize (IH (d || (p =? ign_path)) st f Rr Lr HS K C); destruct (run q (st, f) r) as [w2 xs] end.
-        cbn [fst snd] in *. f_equal. apply IH. intros Hd. apply orb_false_iff in Hd. destruct Hd as [Hd Ht].
-        rewrite (S Hd). symmetry. apply (fs_get_untouched ign_path fs (Edit p c)). exact Ht.
+        match goal with |- context [run q (st, ?f) r] => specialize (IH (d || (p =? ign_path)) (dc || (p =? cfg_path)) st f Rr Lr SKr HS K C W); destruct (run q (st, f) r) as [w2 xs] end.
+        cbn [fst snd] in *. f_equal. apply IH; intros Hd; apply orb_false_iff in Hd; destruct Hd as [Hd Ht].
+        * rewrite (S Hd). symmetry. apply (fs_get_untouched ign_path fs (Edit p c)). exact Ht.
+        * rewrite (SC Hd). symmetry. apply (fs_get_untouched cfg_path fs (Edit p c)). exact Ht.
       + cbn [OrchHist.step fs_step hist_synced] in *. unfold OrchHist.fresh at 1. cbn [OrchHist.step snd].
-        match goal with |- context [run q (st, ?f) r] => specialize (IH (d || (p =? ign_path)) st f Rr Lr HS K C); destruct (run q (st, f) r) as [w2 xs] end.
-        cbn [fst snd] in *. f_equal. apply IH. intros Hd. apply orb_false_iff in Hd. destruct Hd as [Hd Ht].
-        rewrite (S Hd). symmetry. apply (fs_get_untouched ign_path fs (Delete p)). exact Ht.
+        match goal with |- context [run q (st, ?f) r] => specialize (IH (d || (p =? ign_path)) (dc || (p =? cfg_path)) st f Rr Lr SKr HS K C W); destruct (run q (st, f) r) as [w2 xs] end.
+        cbn [fst snd] in *. f_equal. apply IH; intros Hd; apply orb_false_iff in Hd; destruct Hd as [Hd Ht].
+        * rewrite (S Hd). symmetry. apply (fs_get_untouched ign_path fs (Delete p)). exact Ht.
+        * rewrite (SC Hd). symmetry. apply (fs_get_untouched cfg_path fs (Delete p)). exact Ht.
       + cbn [OrchHist.step fs_step hist_synced] in *. unfold OrchHist.fresh at 1. cbn [OrchHist.step snd].
-        match goal with |- context [run q (st, ?f) r] => specialize (IH (d || (p =? ign_path)) st f Rr Lr HS K C); destruct (run q (st, f) r) as [w2 xs] end.
-        cbn [fst snd] in *. f_equal. apply IH. intros Hd. apply orb_false_iff in Hd. destruct Hd as [Hd Ht].
-        rewrite (S Hd). symmetry. apply (fs_get_untouched ign_path fs (Add p c)). exact Ht.
+        match goal with |- context [run q (st, ?f) r] => specialize (IH (d || (p =? ign_path)) (dc || (p =? cfg_path)) st f Rr Lr SKr HS K C W); destruct (run q (st, f) r) as [w2 xs] end.
+        cbn [fst snd] in *. f_equal. apply IH; intros Hd; apply orb_false_iff in Hd; destruct Hd as [Hd Ht].
+        * rewrite (S Hd). symmetry. apply (fs_get_untouched ign_path fs (Add p c)). exact Ht.
+        * rewrite (SC Hd). symmetry. apply (fs_get_untouched cfg_path fs (Add p c)). exact Ht.
       + assert (Rq : q_ignore_parser_reused q = false).
         { destruct R as [R|R]; [exact R|]. cbn [forallb is_new_linter negb andb] in R. discriminate R. }
         cbn [OrchHist.step fs_step hist_synced] in *. unfold OrchHist.fresh at 1. cbn [OrchHist.step snd]. rewrite Rq.
-        specialize (IH false (mk_init fs) fs Rr Lr HS (clean_init _) (coherent_init ignored _)). destruct (run q (mk_init fs, fs) r) as [w2 xs].
-        cbn [fst snd] in *. f_equal. apply IH. intros _. reflexivity.
+        specialize (IH false false (mk_init fs) fs Rr Lr SKr HS (clean_init _ _) (coherent_init ignored _ _) (views_ok_fresh q _ _)).
+        destruct (run q (mk_init fs, fs) r) as [w2 xs]. cbn [fst snd] in *. f_equal. apply IH; intros _; reflexivity.
+      + assert (Sq : q_fp_config_sticky q = false /\ q_dry_config_sticky q = false).
+        { destruct SK as [SK|SK]; [exact SK|]. cbn [forallb is_reload negb andb] in SK. discriminate SK. }
+        cbn [OrchHist.step fs_step hist_synced] in *. unfold OrchHist.fresh at 1. cbn [OrchHist.step snd].
+        match goal with |- context [run q (?s, fs) r] =>
+          assert (K' : clean s) by exact K; assert (C' : coherent s) by exact C;
+          specialize (IH d false s fs Rr Lr SKr HS K' C' (views_ok_off q s (proj1 Sq) (proj2 Sq))); destruct (run q (s, fs) r) as [w2 xs] end.
+        cbn [fst snd] in *. f_equal. apply IH; [exact S|intros _; reflexivity].
   Qed.
 
   (* every call of every admissible history returns what a fresh object returns on the file system as it is then *)
   Theorem history_independent q fs0 h :
     q_lintfile_leaves_evidence q = false -> q_ignore_parser_reused q = false ->
-    hist_synced ign_path false h = true ->
+    q_fp_config_sticky q = false -> q_dry_config_sticky q = false ->
+    hist_synced ign_path cfg_path false false h = true ->
     snd (run q (mk_init fs0, fs0) h) = fresh_run q fs0 h.
   Proof.
-    intros L R HS. apply (run_clean q h false (mk_init fs0) fs0 (or_introl R) (or_introl L) HS (clean_init _) (coherent_init ignored _)).
-    intros _. reflexivity.
+    intros L R SF SD HS.
+    apply (run_clean q h false false (mk_init fs0) fs0 (or_introl R) (or_introl L) (or_introl (conj SF SD)) HS (clean_init _ _) (coherent_init ignored _ _) (views_ok_fresh q _ _));
+      intros _; reflexivity.
   Qed.
 
   (* the same for EVERY quirk vector - in particular the one claimed for the current tree - on histories without bare
-     single-file calls and without rebuilding the Linter in the same process *)
+     single-file calls, without rebuilding the Linter in the same process and without reloading the configuration of a live object *)
   Theorem history_independent_faithful q fs0 h :
     forallb (fun o => negb (bare_single q o)) h = true -> forallb (fun o => negb (is_new_linter o)) h = true ->
-    hist_synced ign_path false h = true ->
+    forallb (fun o => negb (is_reload o)) h = true ->
+    hist_synced ign_path cfg_path false false h = true ->
     snd (run q (mk_init fs0, fs0) h) = fresh_run q fs0 h.
   Proof.
-    intros L R HS. apply (run_clean q h false (mk_init fs0) fs0 (or_intror R) (or_intror L) HS (clean_init _) (coherent_init ignored _)).
-    intros _. reflexivity.
+    intros L R SK HS.
+    apply (run_clean q h false false (mk_init fs0) fs0 (or_intror R) (or_intror L) (or_intror SK) HS (clean_init _ _) (coherent_init ignored _ _) (views_ok_fresh q _ _));
+      intros _; reflexivity.
   Qed.
 
   (* ---------- Theorem D: lint operations leave the file system alone ---------- *)
   Theorem lint_ops_preserve_fs q st fs o : lint_op o = true -> snd (fst (step q (st, fs) o)) = fs.
   Proof.
-    intros H. rewrite (step_fs V perfile rep_blocks rep_consts rep_st hard_excl ignored ign_path in_dir).
+    intros H. rewrite (step_fs V perfile perfile_fp rep_blocks rep_consts rep_st hard_excl ignored ign_path cfg_path in_dir).
     destruct o; cbn [fs_step lint_op] in *; try reflexivity; discriminate.
   Qed.
 
   (* ---------- Theorem B: order independence ---------- *)
-  Hypothesis rep_blocks_perm : forall l l' a a', Permutation l l' -> Permutation a a' -> Permutation (rep_blocks l a) (rep_blocks l' a').
+  Hypothesis rep_blocks_perm : forall k l l' a a', Permutation l l' -> Permutation a a' -> Permutation (rep_blocks k l a) (rep_blocks k l' a').
   Hypothesis rep_st_perm : forall l l', Permutation l l' -> Permutation (rep_st l) (rep_st l').
 
   Definition out_perm (a b : out V) : Prop :=
@@ -244,7 +286,8 @@ Section Main.
 
   Definition st_perm (a b : ostate) : Prop :=
     Permutation (dry_rows a) (dry_rows b) /\ Permutation (dry_aux a) (dry_aux b)
-    /\ Permutation (st_ev a) (st_ev b) /\ ppats a = ppats b /\ coherent a /\ coherent b.
+    /\ Permutation (st_ev a) (st_ev b) /\ ppats a = ppats b /\ coherent a /\ coherent b
+    /\ ocfg a = ocfg b /\ dry_cfg0 a = dry_cfg0 b /\ fp_cfg0 a = fp_cfg0 b.
 
   Inductive op_perm : op -> op -> Prop :=
   | OP_files ps ps' : Permutation ps ps' -> op_perm (LintFiles ps) (LintFiles ps')
@@ -257,33 +300,49 @@ Section Main.
 
   Lemma out_perm_refl a : out_perm a a. Proof. repeat split; reflexivity. Qed.
 
-  Lemma evid_perm pp fs ps ps' : Permutation ps ps' -> Permutation (evid pp fs ps) (evid pp fs ps').
+  Lemma evid_perm pp k fs ps ps' : Permutation ps ps' -> Permutation (evid pp k fs ps) (evid pp k fs ps').
   Proof. intros H. unfold OrchHistBase.evid. now apply Permutation_flat_map. Qed.
-  Lemma pfout_perm pp fs ps ps' : Permutation ps ps' -> Permutation (pfout pp fs ps) (pfout pp fs ps').
+  Lemma pfout_perm pp k kf fs ps ps' : Permutation ps ps' -> Permutation (pfout pp k kf fs ps) (pfout pp k kf fs ps').
   Proof. intros H. unfold OrchHistBase.pfout. now apply Permutation_flat_map. Qed.
+  Lemma any_checked_perm pp ps ps' : Permutation ps ps' -> any_checked hard_excl ignored pp ps = any_checked hard_excl ignored pp ps'.
+  Proof.
+    unfold any_checked. induction 1 as [|x l l' _ IH|x y l|l l' l'' _ IH1 _ IH2]; cbn [existsb]; try congruence.
+    destruct (accepted hard_excl ignored pp x), (accepted hard_excl ignored pp y); reflexivity.
+  Qed.
+  Lemma views_eq q a b : ocfg a = ocfg b -> dry_cfg0 a = dry_cfg0 b -> fp_cfg0 a = fp_cfg0 b -> fp_view q a = fp_view q b /\ dry_view q a = dry_view q b.
+  Proof. intros A B C. unfold fp_view, dry_view. rewrite A, B, C. split; reflexivity. Qed.
 
   Lemma run_entry_perm q entry fs st st' ps ps' :
     st_perm st st' -> Permutation ps ps' ->
     let r := run_entry q entry fs st ps in let r' := run_entry q entry fs st' ps' in
     out_perm (snd r) (snd r') /\ st_perm (fst r) (fst r').
   Proof.
-    intros (P1 & P2 & P3 & PP & C & C') P. cbn zeta.
-    pose proof (evid_perm (ppats st) fs ps ps' P) as Pe. pose proof (pfout_perm (ppats st) fs ps ps' P) as Pp.
+    intros (P1 & P2 & P3 & PP & C & C' & PK & PD & PF) P. cbn zeta.
+    pose proof (evid_perm (ppats st) (ocfg st) fs ps ps' P) as Pe.
+    pose proof (pfout_perm (ppats st) (ocfg st) (fp_view q st) fs ps ps' P) as Pp.
+    destruct (views_eq q st st' PK PD PF) as (VF & VD).
+    pose proof (RCF q entry fs st ps C) as (D1 & D2). pose proof (RCF q entry fs st' ps' C') as (D1' & D2').
+    assert (ED : dry_cfg0 (fst (run_entry q entry fs st ps)) = dry_cfg0 (fst (run_entry q entry fs st' ps'))).
+    { cbn zeta in *. rewrite D1, D1', <- PP, <- PK, <- PD. unfold cfg0_after. now rewrite (any_checked_perm (ppats st) ps ps' P). }
+    assert (EF : fp_cfg0 (fst (run_entry q entry fs st ps)) = fp_cfg0 (fst (run_entry q entry fs st' ps'))).
+    { cbn zeta in *. rewrite D2, D2', <- PP, <- PK, <- PF. unfold cfg0_after. now rewrite (any_checked_perm (ppats st) ps ps' P). }
     destruct (finalizes entry) eqn:F.
     - pose proof (REF q entry fs st ps F C) as (H1 & H2 & H3 & H4 & H5 & H6).
       pose proof (REF q entry fs st' ps' F C') as (K1 & K2 & K3 & K4 & K5 & K6).
-      cbn zeta in *. rewrite <- PP in *. rewrite H1, K1. split.
+      cbn zeta in *. rewrite <- PP, <- PK, <- VF, <- VD in *. rewrite H1, K1. split.
       + unfold out_perm. cbn [o_pf o_blocks o_consts o_st]. rewrite !gen_consts_view.
         split; [exact Pp|]. split; [apply rep_blocks_perm; now apply Permutation_app|].
         split; [|apply rep_st_perm; now apply Permutation_app].
-        rewrite (fv_sort_perm_eq (dry_aux st ++ evid (ppats st) fs ps) (dry_aux st' ++ evid (ppats st) fs ps')); [reflexivity|now apply Permutation_app].
-      + unfold st_perm. rewrite H2, H3, H4, K2, K3, K4, H6, K6.
-        split; [destruct (rows_kept q); [now apply Permutation_app|constructor]|]. repeat split; try constructor; assumption.
+        rewrite (fv_sort_perm_eq (dry_aux st ++ evid (ppats st) (ocfg st) fs ps) (dry_aux st' ++ evid (ppats st) (ocfg st) fs ps')); [reflexivity|now apply Permutation_app].
+      + destruct H6 as (F1 & F2 & _). destruct K6 as (G1 & G2 & _).
+        unfold st_perm. rewrite H2, H3, H4, K2, K3, K4, F1, F2, G1, G2, ED, EF.
+        split; [destruct (rows_kept q); [now apply Permutation_app|constructor]|]. repeat split; try constructor; try assumption; congruence.
     - pose proof (REP q entry fs st ps F C) as (H1 & H2 & H3 & H4 & H5 & H6).
       pose proof (REP q entry fs st' ps' F C') as (K1 & K2 & K3 & K4 & K5 & K6).
-      cbn zeta in *. rewrite <- PP in *. rewrite H1, K1. split.
+      cbn zeta in *. rewrite <- PP, <- PK, <- VF in *. rewrite H1, K1. split.
       + unfold out_perm. cbn [o_pf o_blocks o_consts o_st]. repeat split; try constructor. exact Pp.
-      + unfold st_perm. rewrite H2, H3, H4, K2, K3, K4, H6, K6. repeat split; try assumption; now apply Permutation_app.
+      + destruct H6 as (F1 & F2 & _). destruct K6 as (G1 & G2 & _).
+        unfold st_perm. rewrite H2, H3, H4, K2, K3, K4, F1, F2, G1, G2, ED, EF. repeat split; try assumption; try congruence; now apply Permutation_app.
   Qed.
 
   Lemma run_single_perm q entry fs st st' p :
@@ -295,8 +354,8 @@ Section Main.
     unfold OrchHist.run_single. destruct (run_entry q entry fs st [p]) as [s1 o1]. destruct (run_entry q entry fs st' [p]) as [s1' o1'].
     cbn [fst snd] in Ho, Hs. destruct (finalizes entry); [split; assumption|].
     destruct (q_lintfile_leaves_evidence q); cbn [fst snd]; [split; assumption|]. split; [exact Ho|].
-    destruct P as (P1 & P2 & P3 & _ & _ & _). destruct Hs as (_ & _ & _ & PP1 & C1 & C1').
-    unfold st_perm, keep_evidence. cbn [dry_rows dry_aux st_ev icache ppats]. repeat split; assumption.
+    destruct P as (P1 & P2 & P3 & _). destruct Hs as (_ & _ & _ & PP1 & C1 & C1' & Q1 & Q2 & Q3).
+    unfold st_perm, keep_evidence. cbn [dry_rows dry_aux st_ev icache ppats ocfg dry_cfg0 fp_cfg0]. repeat split; assumption.
   Qed.
 
   Lemma step_perm q st st' fs o o' :
@@ -332,7 +391,7 @@ Section Main.
     - cbn [OrchHist.step]. specialize (ENT api_dir_entry _ _ (filter_perm (fun p => in_dir d p && match fs_get fs p with Some _ => true | None => false end) l l' Hp)). cbn zeta in ENT. unfold walk.
       match goal with |- context [run_entry q ?e fs st ?a] => destruct (run_entry q e fs st a) end.
       match goal with |- context [run_entry q ?e fs st' ?a] => destruct (run_entry q e fs st' a) end. exact ENT.
-    - destruct o as [p|ps|d l|[p|d l]|p c|p|p c|]; cbn [OrchHist.step].
+    - destruct o as [p|ps|d l|[p|d l]|p c|p|p c| |]; cbn [OrchHist.step].
       + specialize (SGL "lint_file" p). cbn zeta in SGL.
         destruct (run_single q "lint_file" fs st p); destruct (run_single q "lint_file" fs st' p). exact SGL.
       + specialize (ENT "lint_files" ps ps (Permutation_refl _)). cbn zeta in ENT.
@@ -348,9 +407,12 @@ Section Main.
       + apply TRIV.
       + apply TRIV.
       + cbn [fst snd]. split; [apply out_perm_refl|]. split; [|reflexivity].
-        destruct P as (_ & _ & _ & PP & C & C'). destruct (q_ignore_parser_reused q).
-        * unfold st_perm. cbn [dry_rows dry_aux st_ev ppats icache]. repeat split; try constructor; assumption.
+        destruct P as (_ & _ & _ & PP & C & C' & _). destruct (q_ignore_parser_reused q).
+        * unfold st_perm. cbn [dry_rows dry_aux st_ev ppats icache ocfg dry_cfg0 fp_cfg0]. repeat split; try constructor; assumption.
         * unfold st_perm. repeat split; try reflexivity; apply coherent_init.
+      + cbn [fst snd]. split; [apply out_perm_refl|]. split; [|reflexivity].
+        destruct P as (P1 & P2 & P3 & PP & C & C' & PK & PD & PF).
+        unfold st_perm. cbn [dry_rows dry_aux st_ev ppats icache ocfg dry_cfg0 fp_cfg0]. repeat split; assumption.
   Qed.
 
   Lemma run_perm q h : forall h' st st' fs,
@@ -364,8 +426,8 @@ Section Main.
     cbn [fst snd] in IH |- *. constructor; assumption.
   Qed.
 
-  Lemma st_perm_init pp : st_perm (init_st pp) (init_st pp).
-  Proof. unfold st_perm. cbn [init_st dry_rows dry_aux st_ev icache ppats]. repeat split; try constructor; apply coherent_init. Qed.
+  Lemma st_perm_init pp oc : st_perm (init_st pp oc) (init_st pp oc).
+  Proof. unfold st_perm. cbn [init_st dry_rows dry_aux st_ev icache ppats ocfg dry_cfg0 fp_cfg0]. repeat split; try constructor; apply coherent_init. Qed.
 
   (* permuting the file list of any call, and the order in which directories are walked, permutes the results *)
   Theorem order_independent q fs0 h h' :
@@ -376,11 +438,12 @@ Section Main.
   (* C08 as a whole: with the flags off, every call of every admissible history, in whatever order its files are
      passed or discovered, returns a permutation of what a fresh object returns for the canonical order *)
   Theorem results_depend_on_current_state_only q fs0 h h' :
-    q_lintfile_leaves_evidence q = false -> q_ignore_parser_reused q = false -> hist_synced ign_path false h = true ->
+    q_lintfile_leaves_evidence q = false -> q_ignore_parser_reused q = false ->
+    q_fp_config_sticky q = false -> q_dry_config_sticky q = false -> hist_synced ign_path cfg_path false false h = true ->
     Forall2 op_perm h h' ->
     Forall2 out_perm (snd (run q (mk_init fs0, fs0) h')) (fresh_run q fs0 h).
   Proof.
-    intros L R HS X. rewrite <- (history_independent q fs0 h L R HS).
+    intros L R SF SD HS X. rewrite <- (history_independent q fs0 h L R SF SD HS).
     apply run_perm; [apply st_perm_init|].
     clear -X. induction X; constructor; [|assumption].
     match goal with H : op_perm _ _ |- _ => destruct H; constructor; now apply Permutation_sym end.
